@@ -33,6 +33,10 @@ func init() {
 func drawArbRings(t *rapid.T, maxLen int) (rings [][]P, kinds string) {
 	const q = 4
 	nr := rapid.SampledFrom([]int{1, 1, 1, 2, 2, 3, 4}).Draw(t, "rings")
+	if rapid.IntRange(0, 120).Draw(t, "manyRings") == 61 { // rarely: very many (small) rings
+		nr = rapid.IntRange(65, 140).Draw(t, "nManyRings")
+		maxLen = min(maxLen, 9)
+	}
 	for r := 0; r < nr; r++ {
 		var ring []P
 		kind := rapid.SampledFrom([]string{"scribble", "scribble", "word", "word", "uniform", "tiny", "valid", "frame"}).Draw(t, "ringKind")
